@@ -112,6 +112,11 @@ type acceptCtx struct {
 	c        *Ctx
 	auth     map[*ssa.Function]bool // functions whose nil error implies authenticity
 	authBool map[*ssa.Function]bool // functions whose true result implies authenticity
+	// authVia: helpers whose nil error implies the nil error of a call made through their
+	// function-typed parameter of this index (nextMessage(op, …)): authenticating at the
+	// call sites that hand in an authenticating function value
+	authVia map[*ssa.Function]int
+	hypo    ssa.Value // during the fixpoint: the parameter assumed authenticating
 }
 
 func (ac *acceptCtx) isAuthCall(cc *ssa.CallCommon) bool {
@@ -120,6 +125,14 @@ func (ac *acceptCtx) isAuthCall(cc *ssa.CallCommon) bool {
 		return true
 	}
 	if callee := cc.StaticCallee(); callee != nil && ac.auth[callee] {
+		return true
+	}
+	if callee := cc.StaticCallee(); callee != nil {
+		if i, ok := ac.authVia[callee]; ok && i < len(cc.Args) && ac.isAuthFuncValue(cc.Args[i], 0) {
+			return true
+		}
+	}
+	if ac.hypo != nil && !cc.IsInvoke() && cc.StaticCallee() == nil && guard.Strip(cc.Value) == ac.hypo {
 		return true
 	}
 	// method of an unexported module interface: authenticating when every
@@ -138,6 +151,41 @@ func (ac *acceptCtx) isAuthCall(cc *ssa.CallCommon) bool {
 			}
 			return true
 		}
+	}
+	return false
+}
+
+// isAuthFuncValue: a function value whose nil error implies authenticity: an
+// authenticating function, or a bound-method / closure wrapper whose body is
+// one authenticating call.
+func (ac *acceptCtx) isAuthFuncValue(v ssa.Value, depth int) bool {
+	if depth > 2 {
+		return false
+	}
+	v = guard.Strip(v)
+	var fn *ssa.Function
+	switch x := v.(type) {
+	case *ssa.Function:
+		fn = x
+	case *ssa.MakeClosure:
+		fn, _ = x.Fn.(*ssa.Function)
+	}
+	if fn == nil || fn.Blocks == nil {
+		return false
+	}
+	if ac.auth[fn] {
+		return true
+	}
+	if strings.Contains(fn.Synthetic, "bound method wrapper") || strings.Contains(fn.Synthetic, "thunk") {
+		var inner *ssa.Call
+		n := 0
+		allInstrs(fn, func(ins ssa.Instruction) {
+			if c2, ok := ins.(*ssa.Call); ok {
+				inner = c2
+				n++
+			}
+		})
+		return n == 1 && ac.isAuthCall(&inner.Call)
 	}
 	return false
 }
@@ -213,7 +261,7 @@ func installParamLen(p *core.Program) {
 
 func newAcceptCtx(c *Ctx) *acceptCtx {
 	installParamLen(c.P)
-	ac := &acceptCtx{c: c, auth: map[*ssa.Function]bool{}, authBool: map[*ssa.Function]bool{}}
+	ac := &acceptCtx{c: c, auth: map[*ssa.Function]bool{}, authBool: map[*ssa.Function]bool{}, authVia: map[*ssa.Function]int{}}
 	fns := c.P.SortedFuncs(core.Product)
 	for changed := true; changed; {
 		changed = false
@@ -238,6 +286,27 @@ func newAcceptCtx(c *Ctx) *acceptCtx {
 				if ok {
 					ac.auth[f] = true
 					changed = true
+				} else if _, has := ac.authVia[f]; !has && len(rets) > 0 && f.Object() != nil && !f.Object().Exported() {
+					// relative to a function-typed parameter
+					for i, prm := range f.Params {
+						if _, isSig := prm.Type().Underlying().(*types.Signature); !isSig {
+							continue
+						}
+						ac.hypo = prm
+						all := true
+						for _, r := range rets {
+							if _, good := ac.returnAuthenticated(r); !good {
+								all = false
+								break
+							}
+						}
+						ac.hypo = nil
+						if all {
+							ac.authVia[f] = i
+							changed = true
+							break
+						}
+					}
 				}
 			}
 			if b, isB := last.Underlying().(*types.Basic); isB && b.Kind() == types.Bool && res.Len() >= 1 && !ac.authBool[f] {
